@@ -110,6 +110,10 @@ def edit_column(sql, column, how):
                 rest = re.sub(r"DEFAULT\s+(\([^)]*\)|'[^']*'|\S+)", "DEFAULT 77", rest, flags=re.I)
             else:
                 rest = rest.rstrip() + " DEFAULT 77 "
+        elif how == "default_remove":
+            if not re.search(r"DEFAULT\s+", rest, re.I):
+                return None
+            rest = re.sub(r"\s*DEFAULT\s+(\([^)]*\)|'[^']*'|\S+)", " ", rest, flags=re.I)
         elif how == "pk":
             if re.search(r"PRIMARY\s+KEY", rest, re.I):
                 rest = re.sub(r"\s*PRIMARY\s+KEY(\s+AUTOINCREMENT)?", "", rest, flags=re.I)
@@ -132,7 +136,7 @@ def enumerate_mutations(path):
             name = c[0]
             muts.append(("drop_column", t, name))
             muts.append(("rename_column", t, name))
-            for how in ("type", "type_case", "type_prefix", "notnull", "default", "pk"):
+            for how in ("type", "type_case", "type_prefix", "notnull", "default", "default_remove", "pk"):
                 muts.append(("edit_column", t, name, how))
     for v in sig["views"]:
         muts.append(("drop_view", v))
@@ -264,7 +268,7 @@ def _confined(before, after, m):
                 return False
         if len(bt[t]) != len(at[t]):
             return False
-        idx = {"type": 1, "type_case": 1, "type_prefix": 1, "notnull": 2, "default": 3, "pk": 4}[how]
+        idx = {"type": 1, "type_case": 1, "type_prefix": 1, "notnull": 2, "default": 3, "default_remove": 3, "pk": 4}[how]
         changed = False
         for x, y in zip(bt[t], at[t]):
             if x == y:
